@@ -598,14 +598,17 @@ def motd_cases(binary, hooks):
     out = []
     for label, motd in (("single", "Hello there"), ("two-lines", "line one\nline two"),
                         ("crlf", "first\r\nsecond"), ("trailing-newline", "only line\n"),
-                        ("unicode", "héllo 日本"), ("colon-start", ":starts with colon"), ("empty", "")):
+                        ("unicode", "héllo 日本"), ("colon-start", ":starts with colon"), ("empty", ""),
+                        ("bare-cr", "first line\rsecond line"), ("mixed-ends", "a1\rb2\nc3\r\nd4"), ("cr-at-end", "lonely\r"),
+                        ("blank-lines", "top\n\n\nbottom")):
         with sut.Server(binary, dict(motd=motd), hooks=hooks) as srv:
             c = wire.Client(srv.port, timeout=5.0)
             burst = c.register("motd", "motd")
             texts = [m.params[-1] for m in burst if m.verb == "372"]
             unprefixed = [m.raw for m in burst if m.source != "irc.verif.test"]
-            want = [l for l in motd.replace("\r\n", "\n").split("\n")]
-            seen_all = all(any(w in t for t in texts) for w in want if w)
+            want = [l for l in motd.replace("\r\n", "\n").replace("\r", "\n").split("\n")]
+            seen_all = all(any(w in t for t in texts) for w in want if w) and not any("\r" in t or "\n" in t for t in texts) \
+                and all(sum(1 for w in want if w and w in t) <= 1 for t in texts)
             out.append(dict(label=label, bad_frames=list(c.bad_frames), unprefixed=unprefixed[:3],
                             motd_lines_in_372=seen_all, n372=len(texts)))
             c.close()
